@@ -29,7 +29,7 @@ def QuadBez.arclen (self : QuadBez K) (_accuracy : K) : K :=
     let c2 := (2 : K) * Scalar.sqrt c
     let ba_c2 := b * a2 + c2
     let v0 := (Scalar.ofRat (1/4) : K) * a2 * a2 * b * ((2 : K) * sabc - c2) + sabc
-    if ba_c2 <. (Scalar.ofRat (1/10000000000000) : K) then v0
+    if ba_c2 <=. (Scalar.ofRat (1/10000000000000) : K) * c2 then v0
     else v0 + (Scalar.ofRat (1/4) : K) * a32 * ((4 : K) * c * a - b * b) * Scalar.ln ((((2 : K) * a + b) * a2 + (2 : K) * sabc) / ba_c2)
 
 /-- `arclen_quadrature_core` -/
@@ -81,6 +81,26 @@ def arclenRec : Nat → CubicBez K → K → K
 
 /-- `impl ParamCurveArclen for CubicBez` -/
 def CubicBez.arclen (self : CubicBez K) (accuracy : K) : K := arclenRec 20 self accuracy
+
+/-- cost model: the number of `arclen_rec` activations (= ticks of the work counter at the head of `arclen_rec` under
+    `--cfg kurbo_verif`); same branch structure as `arclenRec` -/
+def arclenRecCalls : Nat → CubicBez K → K → Nat
+  | fuel, c, accuracy =>
+    let (_, _, _, est, lp_lc) := arclenEst c
+    let est_gauss8_error := smin (spowi est 3 * (Scalar.ofRat (25/10000000) : K)) (Scalar.ofRat (3/100) : K) * lp_lc
+    let est_gauss16_error := smin (spowi est 6 * (Scalar.ofRat (15/1000000000000) : K)) (Scalar.ofRat (9/1000) : K) * lp_lc
+    let est_gauss24_error := smin (spowi est 9 * (Scalar.ofRat (35/100000000000000000) : K)) (Scalar.ofRat (35/10000) : K) * lp_lc
+    if est_gauss8_error <. accuracy then 1
+    else if est_gauss16_error <. accuracy then 1
+    else
+      match fuel with
+      | 0 => 1
+      | fuel' + 1 =>
+        if est_gauss24_error <. accuracy then 1
+        else
+          1 + arclenRecCalls fuel' c.subdivide.1 (accuracy * (Scalar.ofRat (1/2) : K)) + arclenRecCalls fuel' c.subdivide.2 (accuracy * (Scalar.ofRat (1/2) : K))
+
+def CubicBez.arclenCalls (self : CubicBez K) (accuracy : K) : Nat := arclenRecCalls 20 self accuracy
 
 def PathSeg.arclen (s : PathSeg K) (accuracy : K) : K :=
   match s with
